@@ -120,7 +120,9 @@ func genID(r *rand.Rand) uint64 {
 }
 
 func genType(r *rand.Rand) string {
-	switch r.Intn(6) {
+	switch r.Intn(7) {
+	case 6:
+		return "" // a type identifier is any string, the empty one included
 	case 0:
 		return "T"
 	case 1:
